@@ -30,11 +30,16 @@ RULE = ('cases: (dbscan) 1-14 points on small integer grids (duplicates, colline
         'cost+1/2) or estimated (only where every divisor of the estimate is a power of two), job slice permuted / subset / '
         'repeated; the public create_job_clusters AND Jobs::clusters() (what the cluster-removal ruin reads) are both read. '
         '(multi tier) create_multi_tier_clusters on 0-18 locations, 1-2 profiles, asymmetric matrices. '
+        '(analyze) pragmatic documents shaped like examples/data/pragmatic/simple.basic.problem.json (1-9 jobs at geo coordinates, '
+        'distances approximated from them: floats) and that file itself, through vrp-cli get_dbscan_clusters (min_points 3/None/2/4, '
+        'epsilon estimated or given) and get_k_medoids_clusters; no model for this stream: watchdog + contract oracle with float '
+        'comparisons only. Every clustering call of every stream runs under a 20 s watchdog thread in the harness. '
         'non-trivial = distinct inputs whose output differs from the trivial one (a cluster was grown / the tour changed / '
         'more than one medoid).')
 TRUSTED = ['f64 arithmetic on integer-valued costs/distances below 2^53 is exact; sum/len averages in k-medoids order like the sums (validated each run)',
            'HashMap/HashSet iteration order is modelled as an oracle; exact output comparison only on runs where the model saw no order-dependent tie',
            'rayon chunking of fold_reduce is an oracle argument of the model; the harness pins it with a 1-thread pool (two halves) for exact comparison and also runs the default pool for the contract oracle',
+           'analyze stream: the oracle mirrors estimate_epsilon operation by operation in IEEE doubles (Python floats) and otherwise only compares floats',
            'job clusters: the neighbourhood rows are those the public Jobs::neighbors API reports (the job index itself is an input, not modelled); index costs are integers below 2^24 (exact in f32); the estimated epsilon is modelled over exact rationals, the generators only ask for it where all divisors (taken neighbours + 1, number of profiles) are powers of two, and Point::distance_to_line divides all cross products by the same positive length so `>` orders like the exact absolute cross products']
 ASSUMPTIONS = ['LKH cost and termination clauses (C17_lkh_cost, C17_lkh_terminates): symmetric cost matrix (the property quantifies over '
                'symmetric matrices only), duplicate-free input path, hash order returns entries of the map',
@@ -409,6 +414,45 @@ def gen_jobclusters(rng):
             'order': order, 'minp': minp, 'eps': eps, 'shape': shape}
 
 
+def gen_analyze(rng):
+    """pragmatic documents shaped like examples/data/pragmatic/simple.basic.problem.json (what the repository's
+    commands::analyze tests read): few jobs with geo coordinates, distances approximated from them (floats), min_points from the
+    CLI default (3) or None, epsilon estimated"""
+    base = (52.5, 13.4)
+    npl = rng.range(1, 8)
+    spread = rng.choice([50, 400, 3000])
+    places = [(round(base[0] + rng.below(spread) / 10000.0, 5), round(base[1] + rng.below(spread) / 10000.0, 5)) for _ in range(npl)]
+
+    def loc():
+        la, ln = rng.choice(places)
+        return {'lat': la, 'lng': ln}
+
+    def task(tag=None):
+        pl = {'location': loc(), 'duration': float(rng.choice([60, 240, 300]))}
+        if tag:
+            pl['tag'] = tag
+        return {'places': [pl], 'demand': [1]}
+    jobs = []
+    for i in range(rng.range(1, 9)):
+        r = rng.below(10)
+        if r < 4:
+            jobs.append({'id': 'job%d' % (i + 1), 'deliveries': [task()]})
+        elif r < 7:
+            jobs.append({'id': 'job%d' % (i + 1), 'pickups': [task()]})
+        else:
+            jobs.append({'id': 'job%d' % (i + 1), 'pickups': [task('p1')], 'deliveries': [task('d1')]})
+    depot = {'lat': 52.5316, 'lng': 13.3884}
+    problem = {'plan': {'jobs': jobs},
+               'fleet': {'vehicles': [{'typeId': 'vehicle', 'vehicleIds': ['vehicle_1'], 'profile': {'matrix': 'normal_car'},
+                                       'costs': {'fixed': 22.0, 'distance': 0.0002, 'time': 0.004806},
+                                       'shifts': [{'start': {'earliest': '2019-07-04T09:00:00Z', 'location': depot},
+                                                   'end': {'latest': '2019-07-04T18:00:00Z', 'location': depot}}],
+                                       'capacity': [10]}],
+                         'profiles': [{'name': 'normal_car'}]}}
+    return {'op': 'analyze', 'problem': problem, 'minp': rng.choice([3, 3, 3, None, 2, 4]), 'eps': None if rng.chance(4, 5) else rng.choice([0.5, 1.0, 2.5]),
+            'k': rng.choice([2, 2, 3, 3, 4, 9]), 'shape': 'geo-simple-basic-like'}
+
+
 def job_has_locations(j):
     if 'multi' in j:
         return any(l is not None for s in j['multi'] for l in s)
@@ -425,10 +469,12 @@ def generate(rng, tier, n):
             cases.append(gen_jobclusters(rng))
         elif r < 70:
             cases.append(gen_lkh(rng))
-        elif r < 94:
+        elif r < 92:
             cases.append(gen_kmedoids(rng))
-        else:
+        elif r < 97:
             cases.append(gen_multitier(rng))
+        else:
+            cases.append(gen_analyze(rng))
     return cases
 
 
@@ -460,7 +506,19 @@ def _wrapper_corpus():
         {'op': 'kmedoids', 'pts': [0, 1, 2, 3, 4, 5], 'k': 2, 'dist': ONEWAY6, 'kind': 'asym-oneway', 'shape': 'distinct', 'threads': 1},
         {'op': 'hkmedoids', 'pts': [0, 1, 2, 3, 4, 5], 'tiers': 2, 'dist': ONEWAY6, 'kind': 'asym-oneway', 'shape': 'distinct', 'threads': 1},
         {'op': 'multitier', 'size': 6, 'dist': [ONEWAY6], 'profile': 0, 'kind': 'asym-oneway'},
-    ]
+    ] + _analyze_corpus()
+
+
+def _analyze_corpus():
+    """the very document the repository's commands::analyze tests read, with the arguments those tests pass (and None, None)"""
+    path = os.path.join(os.environ.get('VERIF_REPO', '/repo'), 'examples/data/pragmatic/simple.basic.problem.json')
+    try:
+        with open(path) as fh:
+            doc = json.load(fh)
+    except (OSError, ValueError):
+        return []
+    return [{'op': 'analyze', 'problem': doc, 'minp': 3, 'eps': None, 'k': 3, 'shape': 'simple.basic.problem.json'},
+            {'op': 'analyze', 'problem': doc, 'minp': None, 'eps': None, 'k': 2, 'shape': 'simple.basic.problem.json'}]
 
 
 # ------------------------------------------------------------------ model terms
@@ -483,6 +541,8 @@ def jobs_term(jobs):
 
 def model_term(c, impl=None):
     op = c['op']
+    if op == 'analyze':
+        return None           # float distances from coordinates: termination + contract oracle on the implementation's output only
     if op == 'jobclusters':
         if impl is None or 'panic' in impl or 'rows' not in impl:
             return None
@@ -519,6 +579,10 @@ def as_sets(cs):
 
 def compare(c, impl, model):
     op = c['op']
+    if op != 'lkh' and impl.get('timeout'):
+        return 'implementation did not return within the watchdog limit (the model terminates)'
+    if op != 'lkh' and impl.get('skipped'):
+        return None
     if op == 'jobclusters':
         if 'panic' in impl:
             return 'implementation panicked: %s' % impl['panic']
@@ -683,16 +747,25 @@ def jc_estimate_epsilon(c, rows, order, minp):
     return best_y
 
 
-def jc_contract(c, rows, order, minp_opt, eps_opt, clusters, prefix):
-    """pairwise disjoint / grown from a core job / only density-reachable jobs / no core job unclustered, for clusters given as sets"""
+def jc_contract(c, rows, order, minp_opt, eps_opt, clusters, prefix, hasloc=None, eps_value=None):
+    """pairwise disjoint / grown from a core job / only density-reachable jobs / no core job unclustered, for clusters given as sets
+    (costs / epsilon: exact rationals for the integer streams, IEEE doubles - compared only - for the pragmatic `analyze` stream)"""
     v = []
     minp = max(3 if minp_opt is None else minp_opt, 2)
-    eps = Fraction(eps_opt[0], eps_opt[1]) if eps_opt is not None else jc_estimate_epsilon(c, rows, order, minp)
+    if hasloc is None:
+        def hasloc(j):
+            return job_has_locations(c['jobs'][j])
+    if eps_value is not None:
+        eps = eps_value
+    else:
+        eps = Fraction(eps_opt[0], eps_opt[1]) if eps_opt is not None else jc_estimate_epsilon(c, rows, order, minp)
     first = rows[0]
 
     def N(j):
         out = []
-        for k, cst in jc_located_row(c, first[j]):
+        for k, cst in first[j]:
+            if not hasloc(k):
+                continue
             if not cst < eps:
                 break
             out.append(k)
@@ -704,7 +777,7 @@ def jc_contract(c, rows, order, minp_opt, eps_opt, clusters, prefix):
     if len(flat) != len(set(flat)):
         v.append({'class': prefix + '-overlap', 'what': 'a job occurs in two clusters: %s' % clusters})
     for cl in clusters:
-        if any(not job_has_locations(c['jobs'][j]) for j in cl):
+        if any(not hasloc(j) for j in cl):
             v.append({'class': prefix + '-job-without-location-clustered', 'what': 'cluster %s contains a job without locations' % cl})
             continue
         seeds = [j for j in cl if core(j)]
@@ -728,7 +801,7 @@ def jc_contract(c, rows, order, minp_opt, eps_opt, clusters, prefix):
             v.append({'class': prefix + '-unreachable-member', 'what': 'cluster %s has a member that is not density-reachable from any of its core jobs' % cl})
     inc = set(flat)
     for j in order:
-        if job_has_locations(c['jobs'][j]) and core(j) and j not in inc:
+        if hasloc(j) and core(j) and j not in inc:
             nb = N(j)
             shared = [k for k in nb if k in inc]
             cls = prefix + '-core-point-unclustered'
@@ -748,6 +821,97 @@ def jobclusters_oracle(c, impl):
     v = jc_contract(c, impl['rows'], c['order'], c['minp'], c['eps'], impl['clusters'], 'job-clusters')
     # what the solver (cluster-removal ruin) reads: Jobs::new with min_points 3 and an estimated epsilon, all jobs
     v += jc_contract(c, impl['rows'], list(range(len(c['jobs']))), 3, None, impl['solver_clusters'], 'solver-job-clusters')
+    return v
+
+
+def f64_of_bits(b):
+    import struct
+    return struct.unpack('<d', struct.pack('<Q', int(b)))[0]
+
+
+def float_estimate_epsilon(rows, order, minp):
+    """estimate_epsilon mirrored operation by operation in IEEE doubles (Python floats; no fused operations on either side)"""
+    import math
+    costs = [0.0] * len(order)
+    for prow in rows:
+        for idx, j in enumerate(order):
+            s_, cnt = 0.0, 1
+            for _, cst in prow[j][:minp]:
+                s_ = s_ + cst
+                cnt += 1
+            costs[idx] = costs[idx] + s_ / float(cnt)
+    costs = sorted(x / float(len(rows)) for x in costs)
+    ded = []
+    for x in costs:
+        if not ded or ded[-1] != x:
+            ded.append(x)
+    if not ded:
+        return 0.0
+    pts = [(float(i), y) for i, y in enumerate(ded)]
+    a, b = pts[0], pts[-1]
+    dx, dy = a[0] - b[0], a[1] - b[1]
+    ab = math.sqrt(dx * dx + dy * dy)
+    best_y, best = 0.0, -1.7976931348623157e308
+    for p_ in pts:
+        if ab == 0.0:
+            d = 0.0
+        else:
+            cross = (b[0] - a[0]) * (p_[1] - a[1]) - (b[1] - a[1]) * (p_[0] - a[0])
+            d = abs(cross / ab)
+        if d > best:
+            best_y, best = p_[1], d
+    return best_y
+
+
+def analyze_oracle(c, impl):
+    """`vrp-cli analyze dbscan|kmedoids` on a pragmatic document: termination (watchdog), the DBSCAN contract of the reported
+    clusters w.r.t. the neighbourhoods the job index reports (float costs are only compared), partition + directed nearest clause
+    of the reported k-medoids clusters"""
+    if 'panic' in impl:
+        return [{'class': 'analyze-panic', 'what': 'analyze path panicked: ' + impl['panic']}]
+    if 'read_error' in impl:
+        return []
+    v = []
+    ids = {name: i for i, name in enumerate(impl['jobs'])}
+    n = len(ids)
+    rows = [[[(k, f64_of_bits(b)) for k, b in row] for row in prow] for prow in impl['rows']]
+    minp = max(3 if c['minp'] is None else c['minp'], 2)
+    db = impl['dbscan']
+    if isinstance(db, dict):
+        v.append({'class': 'analyze-dbscan-error', 'what': 'get_dbscan_clusters returned Err(%s)' % db['err']})
+    else:
+        by_cluster = {}
+        for name, _loc, cidx in db:
+            if name not in ids:
+                v.append({'class': 'analyze-dbscan-unknown-job', 'what': 'unknown job id %s' % name})
+                continue
+            by_cluster.setdefault(cidx, set()).add(ids[name])
+        clusters = [sorted(by_cluster[k]) for k in sorted(by_cluster)]
+        eps = float(c['eps']) if c['eps'] is not None else float_estimate_epsilon(rows, list(range(n)), minp)
+        v += jc_contract(c, rows, list(range(n)), c['minp'], None, clusters, 'analyze-dbscan', hasloc=lambda j: True, eps_value=eps)
+        if c['eps'] is None and minp == 3 and as_sets(clusters) != as_sets([[ids[x] for x in cl] for cl in impl['solver_clusters']]):
+            v.append({'class': 'analyze-dbscan-differs-from-solver-clusters',
+                      'what': 'same arguments as Jobs::new, but clusters %s vs Jobs::clusters() %s' % (clusters, impl['solver_clusters'])})
+    eps3 = float_estimate_epsilon(rows, list(range(n)), 3)
+    v += jc_contract(c, rows, list(range(n)), 3, None, [[ids[x] for x in cl] for cl in impl['solver_clusters']],
+                     'analyze-solver-job-clusters', hasloc=lambda j: True, eps_value=eps3)
+    km = impl['kmedoids']
+    if isinstance(km, dict):
+        v.append({'class': 'analyze-kmedoids-error', 'what': 'get_k_medoids_clusters returned Err(%s)' % km['err']})
+    else:
+        d = [[f64_of_bits(b) for b in row] for row in impl['dist']]
+        pts = sorted(loc for _n, loc, _m in km if loc is not None)
+        if pts != list(range(impl['size'])):
+            v.append({'class': 'analyze-kmedoids-not-partition', 'what': 'locations reported %s, matrix has %d' % (pts, impl['size'])})
+        meds = sorted(set(m for _n, _l, m in km))
+        for _n, loc, m in km:
+            if loc is None:
+                continue
+            for m2 in meds:
+                if d[loc][m2] < d[loc][m]:
+                    v.append({'class': 'analyze-kmedoids-closer-to-other-medoid',
+                              'what': 'location %d is in the cluster of medoid %d (d=%r) but medoid %d is closer (d=%r)' % (loc, m, d[loc][m], m2, d[loc][m2])})
+                    return v
     return v
 
 
@@ -860,6 +1024,15 @@ def oracle(c, impl):
     if not re.match(r'^s\d+$', str(c.get('id', ''))):      # shrink candidates are not part of the campaign
         _SEEN.append((c, impl))
     op = c['op']
+    if op != 'lkh' and impl.get('timeout'):
+        # every clustering call runs under a 20 s watchdog in the harness; no delta debugging of such a case (every candidate
+        # would spin for the watchdog limit again)
+        c['watchdog_fired'] = True
+        return [{'class': 'clustering-does-not-terminate', 'what': '%s did not return within the watchdog limit' % op}]
+    if op != 'lkh' and impl.get('skipped'):
+        return []
+    if op == 'analyze':
+        return analyze_oracle(c, impl)
     if op == 'dbscan':
         return dbscan_oracle(c, impl)
     if op == 'lkh':
@@ -872,8 +1045,12 @@ def oracle(c, impl):
 
 
 def nontrivial_key(c, impl):
-    if 'panic' in impl:
+    if 'panic' in impl or c['op'] != 'lkh' and (impl.get('timeout') or impl.get('skipped')):
         return None
+    if c['op'] == 'analyze':
+        if 'read_error' in impl:
+            return None
+        return ('an', json.dumps([c['problem'], c.get('matrices'), c['minp'], c['eps'], c['k']]))
     if c['op'] == 'dbscan':
         if any(len(cl) > 1 for cl in impl['clusters']):
             return ('dbscan', json.dumps([c['nbr'], c['minp'], c['pts']]))
@@ -897,6 +1074,17 @@ def nontrivial_key(c, impl):
 
 def classify(c, impl):
     labs = ['op=' + c['op']]
+    if c['op'] != 'lkh' and (impl.get('timeout') or impl.get('skipped')):
+        return labs + ['watchdog:' + ('timeout' if impl.get('timeout') else 'skipped')]
+    if c['op'] == 'analyze':
+        labs.append('analyze:' + c.get('shape', '?'))
+        labs.append('analyze-epsilon:' + ('estimated' if c['eps'] is None else 'given'))
+        if 'read_error' in impl:
+            labs.append('analyze-read-error')
+        elif 'panic' not in impl:
+            labs.append('analyze-dbscan-clustered-jobs=%s' % (0 if isinstance(impl['dbscan'], dict) or not impl['dbscan'] else '1+'))
+            labs.append('analyze-solver-clusters=%d' % len(impl['solver_clusters']))
+        return labs
     if c['op'] == 'dbscan':
         labs.append('dbscan:' + c.get('kind', '?'))
         if 'panic' not in impl:
@@ -934,7 +1122,7 @@ def classify(c, impl):
 # ------------------------------------------------------------------ Coq-side checkers on the implementation's outputs
 def checker_term(c, impl):
     """Gallina term evaluating the verified boolean contract checker on the implementation's output; None to skip"""
-    if 'panic' in impl:
+    if 'panic' in impl or c['op'] != 'lkh' and (impl.get('timeout') or impl.get('skipped')) or c['op'] == 'analyze':
         return None
     if c['op'] == 'dbscan':
         return 'check_dbscan %s %d%%nat %s %s' % (nll(c['nbr']), c['minp'], nl(c['pts']), nll(impl['clusters']))
@@ -1044,6 +1232,8 @@ def extra_coverage():
 
 
 def shrink_candidates(c):
+    if c.get('watchdog_fired'):
+        return
     if c['op'] == 'dbscan':
         pts = c['pts']
         for i in range(len(pts)):
